@@ -11,6 +11,7 @@
 //   harness ownerthief <T> <get|drop|pf> <ms>  owner pops its own pipe while a worker steals the only item
 //   harness steal <T> <iters>    a closure run by a worker schedules another and spins: a second worker must steal it
 //   harness teardown reinit <T> <T2> <n> <depth> | teardown exit <T> <n> <depth>   bursts (with follow-up chains) right before scheduler teardown
+//   harness chain <T> <k> <iters>  k closures scheduled back to back, closure i waits for closure i+1; the caller only polls
 //   harness onethread            tasking system initialised with 1 thread, one schedule(), no waiting
 #include <algorithm>
 #include <atomic>
@@ -863,6 +864,65 @@ static int mode_teardown(int argc, char **argv)
   return 0;   // static destructors (the scheduler's among them) run now; then td::at_very_end
 }
 
+// ------------------------------------------------ dependency chains between scheduled closures, caller never waits
+// k closures scheduled back to back by this thread: closure i spins (no tasking call, deadline 2 s) until closure i+1 — scheduled
+// AFTER it — has set its flag; the last one just sets its flag.  k <= T-1 workers are needed at once, so every push must wake a
+// worker (they are all asleep when the burst starts).  The caller only polls the flags.
+static int sleeping_threads()
+{
+  int n = 0;
+  char path[64], buf[512];
+  for (int tid = getpid(); tid < getpid() + 4096; ++tid) {
+    snprintf(path, sizeof path, "/proc/self/task/%d/wchan", tid);
+    FILE *f = fopen(path, "r");
+    if (!f) continue;
+    size_t k = fread(buf, 1, sizeof buf - 1, f);
+    buf[k] = 0;
+    fclose(f);
+    if (strstr(buf, "futex")) n++;
+  }
+  return n;
+}
+static int mode_chain(int T, int k, int iters)
+{
+  initTaskingSystem(T);
+  int late = 0, completed = 0, asleep_when_late = -1, late_iter = -1, late_link = -1;
+  for (int it = 0; it < iters && !late; ++it) {
+    sleep_ms(3);      // let every worker leave its spin loop and block on the semaphore
+    std::vector<std::atomic<int>> *flag = new std::vector<std::atomic<int>>(k);
+    std::vector<std::atomic<int>> *timedout = new std::vector<std::atomic<int>>(k);
+    for (int i = 0; i < k; ++i) { (*flag)[i] = 0; (*timedout)[i] = 0; }
+    for (int i = 0; i < k; ++i) {
+      schedule([=]() {
+        if (i + 1 < k) {
+          auto t0 = clk::now();
+          while ((*flag)[i + 1].load() == 0 && ms_since(t0) < 2000)
+            std::this_thread::yield();
+          if ((*flag)[i + 1].load() == 0) (*timedout)[i] = 1;
+        }
+        (*flag)[i] = 1;
+      });
+    }
+    auto t0 = clk::now();
+    int asleep_mid = -1;
+    for (;;) {
+      int done = 0;
+      for (int i = 0; i < k; ++i) done += (*flag)[i].load();
+      if (done == k || ms_since(t0) > 4000 + 2000 * k) break;
+      if (asleep_mid < 0 && ms_since(t0) > 300) asleep_mid = sleeping_threads();   // a healthy burst is long over by now
+      sleep_ms(1);
+    }
+    for (int i = 0; i < k; ++i)
+      if ((*timedout)[i].load() || (*flag)[i].load() == 0) { late++; if (late_link < 0) late_link = i; }
+    if (late) { late_iter = it; asleep_when_late = asleep_mid; }
+    else completed++;
+  }
+  printf("CHAIN T=%d k=%d iters=%d completed=%d links_not_satisfied_within_2s=%d at_iteration=%d first_waiting_closure=%d threads_asleep_meanwhile=%d\n", T, k,
+      iters, completed, late, late_iter, late_link, asleep_when_late);
+  fflush(stdout);
+  _exit(0);
+}
+
 int main(int argc, char **argv)
 {
   if (argc < 2) return 2;
@@ -878,6 +938,7 @@ int main(int argc, char **argv)
   }
   if (m == "onethread") return mode_onethread();
   if (m == "teardown") return mode_teardown(argc, argv);
+  if (m == "chain") return mode_chain(n, argc > 3 ? atoi(argv[3]) : 2, argc > 4 ? atoi(argv[4]) : 20);
   if (m == "steal") return mode_steal(n, argc > 3 ? atoi(argv[3]) : 30);
   if (m == "ownerthief") return mode_ownerthief(n, argc > 3 ? argv[3] : "get", argc > 4 ? atoi(argv[4]) : 500);
   if (m == "wakeup") return mode_wakeup(n, argc > 3 ? atoi(argv[3]) : 3000);
